@@ -53,6 +53,16 @@ def pattern_bindings(p, prefix=()):
             yield from pattern_bindings(s, prefix)
 
 
+def _calls(e, fid):
+    """a call of function `fid`, written as a path call or as a method call (an inherent method is the same function
+    with `self` written out)"""
+    return (e['k'] == 'call' and callee_id(e) == fid) or (e['k'] == 'mcall' and e.get('mid') == fid)
+
+
+def _args(e):
+    return e['args'] if e['k'] == 'call' else [e['recv']] + e['args']
+
+
 def recursive_tag_functions(facts):
     """non-closure functions of oal_compiler::inference that take a &Tag and call themselves (also from closures)"""
     out = []
@@ -62,12 +72,12 @@ def recursive_tag_functions(facts):
         fn = l[0]
         if not fn.hir or not any('tag::Tag' in t and 'TagId' not in t for t in fn.d.get('sig_inputs', [])):
             continue
-        selfcalls = [e for e, _ in hir_walk(fn.hir['body']) if e['k'] == 'call' and callee_id(e) == fn.id]
+        selfcalls = [e for e, _ in hir_walk(fn.hir['body']) if _calls(e, fn.id)]
         if not selfcalls and fn.qname in facts.known_fns_or_aliases():
             # recursion through private helpers of the module that did not exist in the pinned tree
             # (`unify` -> `unify_structures` -> `unify_functions` -> `unify`)
             for g in facts.family(fn):
-                if g.id != fn.id and g.hir and any(e['k'] == 'call' and callee_id(e) == fn.id for e, _ in hir_walk(g.hir['body'])):
+                if g.id != fn.id and g.hir and any(_calls(e, fn.id) for e, _ in hir_walk(g.hir['body'])):
                     selfcalls = [True]
         if selfcalls:
             out.append(fn)
@@ -160,7 +170,7 @@ def tag_rec(c, facts, R, prefix_desc=''):
             c.bad(R, 'anchor-missing:recursive-' + need.split('::')[-1], 'no self-recursive function `%s` over Tag found in oal_compiler::inference' % need.split('::')[-1])
     for fn0 in fns:
       units = [fn0] + [g for g in facts.family(fn0) if g.id != fn0.id and g.hir and g.kind != 'Closure' and g.qname not in facts.known_fns_or_aliases()
-                       and any(e['k'] == 'call' and callee_id(e) == fn0.id for e, _ in hir_walk(g.hir['body']))]
+                       and any(_calls(e, fn0.id) for e, _ in hir_walk(g.hir['body']))]
       covered = {}
       only_guarded = {}
       for fn in units:
@@ -183,8 +193,8 @@ def tag_rec(c, facts, R, prefix_desc=''):
                         if g:
                             guarded.add(hid)
         for e, anc in hir_walk(fn.hir['body']):
-            if e['k'] == 'call' and callee_id(e) == fn0.id:
-                for a in e['args']:
+            if _calls(e, fn0.id):
+                for a in _args(e):
                     r = local_root(ctx, a, stop=set(bound))
                     if r in bound:
                         v, fld = bound[r]
@@ -212,8 +222,8 @@ def tag_rec(c, facts, R, prefix_desc=''):
                 phids = {hid for hid, _ in pattern_bindings(h.hir['params'][i])}
                 hctx = FnCtx(h)
                 for e2, _ in hir_walk(h.hir['body']):
-                    if e2['k'] == 'call' and callee_id(e2) == fn0.id:
-                        for a2 in e2['args']:
+                    if _calls(e2, fn0.id):
+                        for a2 in _args(e2):
                             fr = field_root(hctx, a2, phids)
                             if fr and fr[1]:
                                 covered.setdefault(v, set()).add(fr[1])
@@ -390,9 +400,9 @@ def var_first(c, facts, R):
         if pidx is None:
             continue
         for e, anc in hir_walk(fn.hir['body']):
-            if e['k'] == 'call' and callee_id(e) == h.id and pidx < len(e['args']):
+            if _calls(e, h.id) and pidx < len(_args(e)):
                 n += 1
-                a0 = e['args'][pidx]
+                a0 = _args(e)[pidx]
                 while a0['k'] in ('addr', 'unary') or (a0['k'] == 'mcall' and a0['name'] == 'clone'):
                     a0 = a0['e'] if a0['k'] != 'mcall' else a0['recv']
                 hid = a0['p']['hid'] if a0['k'] == 'path' and a0['p'].get('res') == 'local' else None
@@ -707,13 +717,13 @@ def occurs_existential(c, facts, R):
     nested = 0
     for e, anc in hir_walk(fn.hir['body']):
         if e['k'] == 'mcall' and e['name'] in ('all', 'any', 'find', 'position', 'fold', 'try_for_each'):
-            inner = any(x['k'] == 'call' and callee_id(x) == fn.id for x, _ in hir_walk(e))
+            inner = any(_calls(x, fn.id) for x, _ in hir_walk(e))
             if inner:
                 nested += 1
                 if e['name'] != 'any':
                     bad.append('.%s(..)' % e['name'])
         if e['k'] == 'binary' and e['op'] in ('And', 'Or'):
-            both = [any(x['k'] == 'call' and callee_id(x) == fn.id for x, _ in hir_walk(side)) for side in (e['l'], e['r'])]
+            both = [any(_calls(x, fn.id) for x, _ in hir_walk(side)) for side in (e['l'], e['r'])]
             if all(both) or (any(both) and e['op'] == 'And'):
                 nested += 1
                 if e['op'] == 'And':
